@@ -222,6 +222,29 @@ pub fn scenarios(tier: Tier) -> Vec<LinkScenario<fn() -> Box<dyn Probe>>> {
     out
 }
 
+/// scale class: a message of 120 slices on a link that carries 50 slices per tick; one or two packets lost
+pub fn long_scenarios(kind: Kind, probe: fn() -> Box<dyn Probe>) -> Vec<LinkScenario<fn() -> Box<dyn Probe>>> {
+    let mut out = vec![];
+    for dir in 0..2usize {
+        let mut cfg = LinkCfg::base(
+            &format!("144000-byte message (120 slices) at 60000 B per tick dir{}", dir),
+            vec![Chan::new(0, kind, 400_000, 300)],
+            vec![Chan::new(0, kind, 400_000, 300)],
+        );
+        cfg.bytes_per_tick = 60_000;
+        cfg.dt_ms = vec![100];
+        cfg.horizon = 3;
+        cfg.tail = 25;
+        cfg.fates = vec![crate::link::Fate::Ok, crate::link::Fate::Drop];
+        cfg.drains = vec![crate::link::Drain::End];
+        cfg.allow_reverse = false;
+        cfg.faults_dir = [dir == 0, dir == 1];
+        cfg.script = vec![Send { tick: 0, dir, ch: 0, len: 144_000 }, Send { tick: 0, dir, ch: 0, len: 7 }];
+        out.push(LinkScenario { cfg, probe });
+    }
+    out
+}
+
 pub fn run(tier: Tier) -> i32 {
     let mut rep = Report::new("C01", tier);
     rep.rule("M2: every schedule with <= d deviations (per packet: drop/dup/delay1/delay2/dup-late; per batch: reverse; per tick: application skips draining) over the first 5 ticks of each scenario (script x tick length x direction), then a fault-free tail; oracle: obtained is a byte-identical prefix of submitted after every drain, equal after the tail, nobody disconnects");
@@ -229,6 +252,10 @@ pub fn run(tier: Tier) -> i32 {
     let sc = scenarios(tier);
     let d = tier.pick(3, 4);
     run_link_scenarios(&mut rep, "m2", &sc, d, tier.pick(120.0, 3000.0));
+    if rep.machinery.is_none() {
+        let long = long_scenarios(Kind::Ordered, (|| Box::new(OrderedProbe::new()) as Box<dyn Probe>) as fn() -> Box<dyn Probe>);
+        super::run_link_scenarios_from(&mut rep, "m2-long", &long[..tier.pick(1, 2)], tier.pick(1, 2), tier.pick(120.0, 3000.0), 1000);
+    }
     {
         let ks: Vec<usize> = tier.pick(vec![257, 1100], vec![255, 256, 257, 1024, 1100, 5000]);
         for &k in &ks {
@@ -252,6 +279,10 @@ pub fn replay(j: &J) -> i32 {
     };
     if j.get("kind").and_then(|k| k.as_str()) == Some("trace") {
         return super::soup::replay_soup(j, Kind::Ordered, super::soup::O_ORDER);
+    }
+    if j.get("scenario_index").and_then(|x| x.as_i()).unwrap_or(0) >= 1000 {
+        let long = long_scenarios(Kind::Ordered, (|| Box::new(OrderedProbe::new()) as Box<dyn Probe>) as fn() -> Box<dyn Probe>);
+        return super::replay_link_from(&long, j, 1000);
     }
     replay_link(&scenarios(tier), j)
 }
